@@ -27,7 +27,7 @@ ENV = dict(os.environ)
 ENV["CARGO_NET_OFFLINE"] = "true"
 ENV.setdefault("CARGO_TERM_COLOR", "never")
 
-CBMC_ARGS = ["--max-field-sensitivity-array-size", "1024"]
+CBMC_ARGS = ["--max-field-sensitivity-array-size", "1024", "--unwindset", "memcmp.0:70"]
 
 
 def log(*a):
